@@ -104,7 +104,21 @@ func (p *printer) space() {
 }
 
 func (p *printer) newline() {
+	// here-documents begin after the next newline
+	p.flush()
 	p.w.WriteByte('\n')
+}
+
+// flush writes the pending here-documents.
+func (p *printer) flush() {
+	for i, list := range p.stack {
+		p.stack[i] = nil
+		for _, r := range list {
+			p.w.WriteByte('\n')
+			p.word(r.Heredoc)
+			p.word(r.Delim)
+		}
+	}
 }
 
 func (p *printer) print(n ast.Node) (err error) {
@@ -580,14 +594,9 @@ func (p *printer) push() {
 }
 
 func (p *printer) heredoc() {
+	p.flush()
 	// pop
-	list := p.stack[len(p.stack)-1]
 	p.stack = p.stack[:len(p.stack)-1]
-	for _, r := range list {
-		p.newline()
-		p.word(r.Heredoc)
-		p.word(r.Delim)
-	}
 }
 
 func (p *printer) word(w ast.Word) {
